@@ -5,11 +5,14 @@
    registered, open modules are in subscriber lists (so an unregistered module is never a recipient), its
    id can be reused (uniqueness only constrains live modules), and the removal itself only shrinks the
    registry (Frame): the other modules' identities and subscriptions are untouched.
-   "Exactly one CLIENT_CLOSED" is checked against the implementation by the spec oracle; in the model it
-   follows from remove_module being the only sender of CLIENT_CLOSED and being guarded by m_reg. *)
+   "Exactly one CLIENT_CLOSED": C07_departure_exact - at every reachable state, removing a registered module
+   (debug logging off, the remaining CLIENT_CLOSED subscribers writable) appends to the write log exactly one whole
+   CLIENT_CLOSED frame describing it for each remaining eligible subscriber of CLIENT_CLOSED and nothing else,
+   and leaves it unregistered, closed, in no subscriber list and not a logger; a second removal is a no-op
+   (C07_second_removal_noop).  Failing-send cases at stream level: correspondence and spec oracle. *)
 From Coq Require Import ZArith List Bool Lia.
-From Mgr Require Import Gen.MgrDefs Model.Manager Proofs.RegInv Proofs.Frame Proofs.RegTraverse Proofs.RegTop
-                        Proofs.Connect Proofs.StepInv.
+From Mgr Require Import Gen.MgrDefs Model.Manager Proofs.ListLemmas Proofs.RegInv Proofs.Frame Proofs.RegTraverse Proofs.RegTop
+                        Proofs.Connect Proofs.StepInv Proofs.Exact Proofs.DepartExact.
 Import ListNotations.
 Open Scope Z_scope.
 
@@ -45,6 +48,33 @@ Theorem C07_rest_untouched : forall cfg fuel h p s, RegInv s ->
   | Crash e _ => e = XFuel
   end.
 Proof. intros cfg fuel h p s H. exact (J_fwd cfg fuel [] h p s H). Qed.
+
+Theorem C07_departure_exact : forall cfg fuel es u s (k : nat) c,
+  run cfg fuel es = Ok u s -> m_reg (find_mod c (mods s)) = true -> 10 < loglevel cfg ->
+  (forall f, In f (snapshot (closed_state s c) MT_CLIENT_CLOSED) -> zmem f (wl s) = true /\ flookup f (faults s) = None) ->
+  exists s', remove_module cfg (Datatypes.S k) c s = Ok tt s' /\
+    out s' = out s ++ frames cc_hdr (client_payload true (find_mod c (mods (closed_state s c)))) (closed_state s c)
+                             (snapshot (closed_state s c) MT_CLIENT_CLOSED) /\
+    m_reg (find_mod c (mods s')) = false /\ m_closed (find_mod c (mods s')) = true /\
+    ~ In c (snapshot (closed_state s c) MT_CLIENT_CLOSED) /\
+    subs s' = subs (closed_state s c) /\ loggers s' = loggers (closed_state s c).
+Proof.
+  intros cfg fuel es u s k c Hrun Hreg Hl Henv. pose proof (run_safe cfg fuel es) as R. rewrite Hrun in R.
+  destruct R as (R & _). apply (departure_exact cfg k c s []); auto.
+Qed.
+
+(* after the departure the connection is in no subscriber list and not in the logger set *)
+Theorem C07_closed_state_clean : forall s c t,
+  ~ In c (alookup t (subs (closed_state s c))) \/ zmem t (m_subs (find_mod c (mods s))) = false.
+Proof.
+  intros s c t. unfold closed_state. simpl. rewrite alookup_drop_subs.
+  destruct (zmem t (m_subs (find_mod c (mods s)))); [left|right; reflexivity].
+  intro Hin. apply zremove_In in Hin. tauto.
+Qed.
+
+Theorem C07_second_removal_noop : forall cfg rec c s, m_reg (find_mod c (mods s)) = false ->
+  remove_module_with cfg rec c s = Ok tt s.
+Proof. intros cfg rec c s H. unfold remove_module_with, bind, get. rewrite H. reflexivity. Qed.
 
 (* non-vacuity: a subscriber whose write fails during a delivery is gone afterwards, the other
    subscriber still got the message, and one CLIENT_CLOSED was published (to the monitor, conn 3) *)
